@@ -269,4 +269,32 @@ theorem segClosedB_sound (w : Bytes) (h : segClosedB w = true) : SegClosed w := 
   · exact absurd hlt h2
   · exact h2
 
+/-- side conditions on the regenerated layout the proofs unfold: packed record sizes of `iwal.h`, opcodes, and the
+fields the loops read lie inside the headers -/
+theorem wal_layout_ok :
+    sz_WBSEP = 12 ∧ sz_WBSET = 24 ∧ sz_WBCOPY = 28 ∧ sz_WBWRITE = 20 ∧ sz_WBRESIZE = 20 ∧ sz_WBSAVEPOINT = 12 ∧ sz_WBRESET = 4 ∧
+    [WOP_SET, WOP_COPY, WOP_WRITE, WOP_RESIZE, WOP_SAVEPOINT, WOP_RESET, WOP_SEP] = [1, 2, 3, 4, 5, 6, 127] ∧
+    off_WBSEP_len + w_WBSEP_len = sz_WBSEP ∧ off_WBWRITE_off + w_WBWRITE_off = sz_WBWRITE ∧
+    off_WBSET_len + w_WBSET_len = sz_WBSET ∧ off_WBCOPY_noff + w_WBCOPY_noff = sz_WBCOPY ∧
+    off_WBRESIZE_nsize + w_WBRESIZE_nsize = sz_WBRESIZE ∧ PAGE_SIZE = 4096 ∧ crcTable.size = 256 := by decide
+
+/-- a small log: separator (len 36), one `WBSET` (val 7, off 2, len 3), one savepoint -/
+def exLog : Bytes :=
+  [127,0,0,0, 0,0,0,0, 36,0,0,0] ++ [1,0,0,0, 7,0,0,0, 2,0,0,0,0,0,0,0, 3,0,0,0,0,0,0,0] ++ [5,0,0,0, 1,2,3,4,5,6,0,0]
+def exCfg : Cfg := { crcOn := false, crc := fun _ => 0, maxoff := 0 }
+def exMain : Bytes := [9,9,9,9,9,9,9,9]
+
+theorem exLog_walk : walk exLog = [(0, Rec.sep 0 36), (12, Rec.set 7 2 3), (36, Rec.savepoint)] := by decide
+
+/-- non-vacuity of `recover_cut`: the hypotheses hold for `exLog`; cut inside the savepoint record (40 of 48 bytes)
+recovery returns to the pre-image, uncut it applies the store -/
+example : ∃ f, (f = 0 ∨ ((f, Rec.savepoint) ∈ walk exLog ∧ f + 12 ≤ 40)) ∧
+      (∀ s, (s, Rec.savepoint) ∈ walk exLog → s + 12 ≤ 40 → s ≤ f) ∧
+      recover exCfg 1 (exLog.take 40) exMain = (.ok, stateAt exCfg exLog exMain f, []) :=
+  recover_cut exCfg exLog exMain 40 (by decide) (by decide) (segClosedB_sound _ (by decide))
+    (by intro p h; rw [exLog_walk] at h; simp at h) (by decide)
+
+example : recover exCfg 1 exLog exMain = (.ok, [9,9,7,7,7,9,9,9], []) := by decide
+example : recover exCfg 1 (exLog.take 40) exMain = (.ok, exMain, []) := by decide
+
 end IwModel.C05
